@@ -53,7 +53,7 @@ pub trait Adapter {
     /// schemes without a non-hiding mode (Hyrax): commitments are compared through their opening (state)
     fn always_blinded() -> bool { false }
     /// C08: independent recomputation of a hash-based commitment from the polynomial
-    fn reference_commitment(_ck: &CK<Self>, _p: &Self::P, _cm: &Cm<Self>, _st: &St<Self>) -> Option<bool> { None }
+    fn reference_commitment(_ck: &CK<Self>, _p: &Self::P, _bound: Option<usize>, _cm: &Cm<Self>, _st: &St<Self>) -> Option<bool> { None }
     /// constructive attack from the property's catalogue: returns a crafted proof and the FALSE values it claims
     fn attack(_kind: &str, _ck: &CK<Self>, _polys: &[&LabeledPolynomial<Self::F, Self::P>],
               _comms: &[&LabeledCommitment<Cm<Self>>], _states: &[&St<Self>], _pt: &Pt<Self>,
@@ -468,6 +468,8 @@ where
                     "sponge_pre" => {}
                     "vperm" => { vperm = args.iter().map(|x| x.parse().unwrap()).collect(); }
                     "drop_query" => { let k: usize = args[0].parse().unwrap(); if k < tr3.len() { tr3.remove(k); } else { skipped = true; } }
+                    "drop_eval" => {}
+                    "drop_comm" => { let i: usize = args[0].parse().unwrap(); vperm.retain(|x| *x != i); }
                     _ => skipped = true,
                 }
                 if skipped { out.obs1(&name, "S", "skipped".into()); continue; }
@@ -485,6 +487,7 @@ where
                 for (k, d) in &deltas {
                     if *k < keys.len() { *evals.get_mut(&keys[*k]).unwrap() += *d; } else { skipped = true; }
                 }
+                if kind == "drop_eval" { let k: usize = args[0].parse().unwrap(); if k < keys.len() { evals.remove(&keys[k]); } else { skipped = true; } }
                 if skipped { out.obs1(&name, "S", "skipped".into()); continue; }
                 let d = guard_any(|| A::PC::batch_check(&vk, vperm.iter().map(|i| &cms[*i]), &qs, &evals, &bp2, &mut vs2, &mut vrng));
                 out.obs1(&name, "S", decision(&d));
@@ -595,7 +598,7 @@ where
     // different polynomials -> different commitments (p vs q are different unless the generator says otherwise)
     out.obs1("p_q_equal", "S", if ser(cs[0]) == ser(cs[1]) { "equal".into() } else { "differ".into() });
     for i in 0..5 {
-        if let Some(ok) = A::reference_commitment(&ck, polys[i].polynomial(), cs[i], &_states[i]) {
+        if let Some(ok) = A::reference_commitment(&ck, polys[i].polynomial(), bound, cs[i], &_states[i]) {
             out.obs1(&format!("reference.{}", i), "S", if ok { "matches".into() } else { "differs".into() });
         }
     }
